@@ -109,8 +109,6 @@ def encLoadErr : Lit.LoadErr → Sx
 def decPVal : Sx → Option Bind.PVal
   | .atom "null" => some .null
   | .list [.atom "num", n, body] => do pure (.num (← decBool n) (← decChars body))
-  | .list [.atom "word", w] => do pure (.word (← decChars w))
-  | .list [.atom "negword", w] => do pure (.negWord (← decChars w))
   | .list [.atom "str", s] => do pure (.str (← decChars s))
   | .list [.atom "bool", b] => do pure (.bool (← decBool b))
   | _ => none
